@@ -262,6 +262,29 @@ let dispatch (fn : string) (args : sx list) : sx =
      | R_no_frame st -> L [A "noframe"; of_rstate st]
      | R_pytest_skip st -> L [A "pytestskip"; of_rstate st]
      | R_need q -> of_query q)
+  (* Runner *)
+  | "gather", [cmd; exs] ->
+    let to_ex = function L [c; u; d] -> { ex_callname = to_str c; ex_unique = to_str u; ex_disabled = to_bool d } | _ -> raise (Bad "example") in
+    let cmd = (match cmd with A "all" -> C_all | A "dump" -> C_dump | A "list" -> C_list | L [A "name"; s] -> C_name (to_str s) | _ -> raise (Bad "command")) in
+    of_list (fun e -> of_str e.ex_unique) (gather cmd (to_list to_ex exs))
+  | "run_examples", [outs] ->
+    let to_out = function
+      | L [A "summary"; p; f; s] -> RO_summary { s_passed = to_bool p; s_failed = to_bool f; s_skipped = to_bool s }
+      | A "raised" -> RO_raised | A "interrupt" -> RO_interrupt | _ -> raise (Bad "run_out") in
+    (match run_examples (to_list to_out outs) with
+     | None -> A "aborted"
+     | Some rs -> L [of_nat rs.n_total; of_nat rs.n_passed; of_nat rs.n_failed; of_nat rs.n_skipped;
+                     of_list of_nat rs.failed_idx; of_nat (exit_status rs)])
+  | "verdicts", [cfg; reqtab; ocs; parts] ->
+    (* native (on_error=return, mode native) and pytest (on_error=raise, mode pytest) verdicts of one doctest *)
+    let req = requires_of (to_reqtab reqtab) in
+    let ocl = to_list to_outcome ocs in
+    let base = to_config cfg in
+    let cn = { base with c_on_error = OE_return; c_pytest_mode = false } in
+    let cp = { base with c_on_error = OE_raise; c_pytest_mode = true } in
+    let ps = to_list to_part parts in
+    let ov = function None -> A "none" | Some V_passed -> A "passed" | Some V_failed -> A "failed" | Some V_skipped -> A "skipped" in
+    L [ov (native_verdict (run req cn (outcome_fun ocl) ps)); ov (pytest_verdict (run req cp (outcome_fun ocl) ps))]
   | _ -> raise (Bad ("unknown function " ^ fn))
 
 
